@@ -147,7 +147,7 @@ func ValidateIssuer(issuer string, allowInsecure bool) error {
 	if err != nil {
 		return ErrInvalidIssuerURL
 	}
-	if u.Host == "" {
+	if u.Hostname() == "" { // Host may consist of a port only
 		return ErrInvalidIssuerMissingHost
 	}
 	if u.Scheme != "https" {
@@ -159,7 +159,8 @@ func ValidateIssuer(issuer string, allowInsecure bool) error {
 }
 
 func ValidateIssuerPath(issuer *url.URL) error {
-	if issuer.Fragment != "" || len(issuer.Query()) > 0 {
+	// RawQuery, not Query(): the latter silently drops pairs it cannot parse ("a;b", "%zz")
+	if issuer.Fragment != "" || issuer.RawQuery != "" {
 		return ErrInvalidIssuerPath
 	}
 	return nil
